@@ -108,9 +108,13 @@ def evaluate(case):
                             f"(TP {s.tp_frame_nums} FP {s.fp_frame_nums} TN {s.tn_frame_nums} FN {s.fn_frame_nums})"), seen
                 if len(s.total_frame_nums) != len(s.tp_frame_nums) + len(s.fp_frame_nums) + len(s.tn_frame_nums) + len(s.fn_frame_nums):
                     return f"tallies of {s.uuid} do not add up", seen
-                for r in s.get_status_rates():
-                    if not (0.0 <= r.rate <= 1.0 or r.rate == float("inf")):
-                        return f"status rate {r.rate} outside [0, 1]", seen
+                rs = s.get_status_rates()
+                for r in rs:
+                    # a tallied ground truth was seen in at least one frame: each of its four rates is a share of those frames
+                    if not 0.0 <= r.rate <= 1.0:
+                        return f"{r.status.value} rate of ground truth {s.uuid} is {r.rate}, outside [0, 1] (seen in {len(s.total_frame_nums)} frames)", seen
+                if abs(sum(r.rate for r in rs) - 1.0) > 1e-9:
+                    return f"the four status rates of ground truth {s.uuid} sum to {sum(r.rate for r in rs)}", seen
             if set(mine) - set(uu):
                 return f"critical ground truths {sorted(set(mine) - set(uu))} have no status entry", seen
             rates = get_scene_rates(sts)
